@@ -238,3 +238,28 @@ def prefixes(init, cfg, k, seed=0):
                 nxt.append(h + [st])
         out = nxt
     return out
+
+
+def has_stale_edge(tensors):
+    """True if the graph reachable from `tensors` contains an op that is no longer registered in the
+    (non-empty) consumer set of one of its non-constant inputs -- the state left behind when a clear
+    event empties a consumer set and later re-use refills it (root cause of finding F-C09)."""
+    import weakref
+
+    stack = list(tensors)
+    seen = set()
+    stale = False
+    while stack and not stale:
+        u = stack.pop()
+        if id(u) in seen:
+            continue
+        seen.add(id(u))
+        op = u._creator
+        if op is None:
+            continue
+        for var in op.variables:
+            if not var.constant and weakref.ref(op) not in var._ops:
+                stale = True
+            stack.append(var)
+    del stack
+    return stale
